@@ -945,6 +945,8 @@ fn get_or_create_hyperplanes(
 
     // Fast path: read lock for cache hit
     {
+        #[cfg(feature = "verif-hooks")]
+        crate::verif_hooks::before_lock("lsh_cache.lookup.read", &|| cache.try_read().is_some());
         let read_guard = cache.read();
         if let Some(entry) = read_guard.cache.get(&key) {
             entry.touch(); // Update LRU timestamp atomically
@@ -954,6 +956,8 @@ fn get_or_create_hyperplanes(
     }
 
     // Slow path: write lock for cache miss
+    #[cfg(feature = "verif-hooks")]
+    crate::verif_hooks::before_lock("lsh_cache.miss.write", &|| cache.try_write().is_some());
     let mut write_guard = cache.write();
 
     // Double-check after acquiring write lock (another thread may have inserted)
@@ -1077,6 +1081,8 @@ pub fn get_lsh_cache_stats() -> LshCacheStats {
 pub fn clear_lsh_cache() {
     let cache = get_lsh_cache();
     let stats = get_lsh_stats();
+    #[cfg(feature = "verif-hooks")]
+    crate::verif_hooks::before_lock("lsh_cache.clear.write", &|| cache.try_write().is_some());
     cache.write().cache.clear();
     stats.reset();
 }
@@ -1090,6 +1096,8 @@ pub fn clear_lsh_cache() {
 /// Eviction happens on the next cache miss if over capacity.
 pub fn configure_lsh_cache_size(max_entries: usize) {
     let cache = get_lsh_cache();
+    #[cfg(feature = "verif-hooks")]
+    crate::verif_hooks::before_lock("lsh_cache.configure.write", &|| cache.try_write().is_some());
     cache.write().max_entries = max_entries;
 }
 
